@@ -1,12 +1,14 @@
 package props
 
 import (
+	stdxml "encoding/xml"
 	"errors"
 	"fmt"
 	"strings"
 	"time"
 
 	saml2 "github.com/russellhaering/gosaml2"
+	"github.com/russellhaering/gosaml2/types"
 
 	"verifsim/core"
 	"verifsim/world"
@@ -121,7 +123,7 @@ func init() {
 			"directed prefix: fault kind x position x n x placement x issuer configured or not; distinct = shape hash (fault, position, n, placement, issuer-configured, layout, outcome class)",
 		Directed:   c03Directed,
 		Run:        c03Run,
-		MustHit:    []string{"nonconforming_idp", "misroute", "delay_past_expiry", "position>0", "place=R", "place=A", "place=RA", "place=none", "issuer_unconfigured", "redelivery_after_change", "encrypted_only_with_checking_off", "assertions_encrypted"},
+		MustHit:    []string{"nonconforming_idp", "misroute", "delay_past_expiry", "position>0", "place=R", "place=A", "place=RA", "place=none", "issuer_unconfigured", "redelivery_after_change", "encrypted_only_with_checking_off", "assertions_encrypted", "validate_called_directly"},
 		RandomRuns: map[string]int{"quick": 8000, "thorough": 60000},
 		Assumptions: []string{"error identity is compared by Go type and by the SAML element/attribute name it carries, never by message text",
 			"a fault is injected alone; with several simultaneous violations any of the corresponding errors is allowed"},
@@ -318,6 +320,31 @@ func c03Run(r *core.Run) {
 			ctx["returned"] = trunc(world.J(got), 1200)
 			r.Fail("soundness", "C03/accepted-but-model-rejects/"+why, ctx)
 			return
+		}
+	}
+	// the exported Validate called directly on a Response the application decoded itself (no signature
+	// involved): the same profile checks decide
+	violatesD := fault != "none" && !(!issuerCfg && (fault == "resp-issuer-wrong" || fault == "a-issuer-wrong"))
+	if !encrypted && t.Int(4, "c03.direct") == 1 && !r.Failed() {
+		dr := &types.Response{}
+		if err := stdxml.Unmarshal([]byte(xml), dr); err == nil {
+			do := world.Guard(func() error { return s.Node.SP.Validate(dr) })
+			r.Steps++
+			r.Probe("validate_called_directly")
+			r.Logf("direct Validate -> %s %s", do.Class(), world.ErrClass(do.Err))
+			dctx := obs("entry", "Validate(decoded struct)", "fault", fault, "n", n, "position", pos, "issuer_configured", issuerCfg, "err", fmt.Sprint(do.Err))
+			switch {
+			case do.Panic != "":
+			case violatesD && do.OK():
+				r.Fail("reject", "C03/fault-accepted-by-direct-validate/"+fault, dctx)
+				return
+			case violatesD && !errMatches(do.Err, c03Expect(fault)):
+				r.Fail("typed-error", "C03/wrong-error-from-direct-validate/"+fault+"/"+world.ErrClass(do.Err), dctx)
+				return
+			case !violatesD && !do.OK():
+				r.Fail("completeness", "C03/conforming-rejected-by-direct-validate/"+world.ErrClass(do.Err), dctx)
+				return
+			}
 		}
 	}
 	// redelivery of an accepted payload to the same SP after the application changed the consumer
